@@ -62,9 +62,15 @@ PROPS["C19"] = dict(
     dict(name="vec-fp-l1norm", harness="C19_vec_fp.cpp", entries=_c19_e(["l1"], ["f3", "d3"]),
          units=[], unwind=20, solvers=["minisat"], timeout=300, mem_gb=4,
          bounds="VectorT<float,3>, VectorT<double,3>, finite components with |x| < 1e30: l1_norm() >= |x_i| for every i (a necessary condition of l1_norm() == sum |x_i| under any rounding)"),
-    dict(name="vec-fp-float2", harness="C19_vec_fp.cpp", entries=_c19_e(_C19_FP_EQ + _C19_FP_REL, ["f2"]), tiers=["thorough"],
-         units=[], unwind=20, solvers=["cvc5", "minisat"], timeout=600, mem_gb=4,
-         bounds="VectorT<float,2>: same obligations as vec-fp-formula / vec-fp-order (clang keeps the 8-byte vector in an i64 temporary; expected to be only partly decided)"),
+    dict(name="vec-fp-float2", harness="C19_vec_fp.cpp", entries=_c19_e(["mean", "norm", "red", "maxmin", "maxabs"], ["f2"]),
+         units=[], unwind=20, solvers=["cvc5", "minisat"], timeout=300, mem_gb=4,
+         bounds="VectorT<float,2>, arbitrary bit patterns: mean, mean_abs, norm/length (modulo sqrt) bit-exact against the formula; max/min/max_abs/min_abs/l8_norm and "
+                "min/max/minimize/maximize/minimized/maximized for non-NaN components (the obligations that do not copy the vector, see vec-fp-float2-rest)"),
+    dict(name="vec-fp-float2-rest", harness="C19_vec_fp.cpp", tiers=["thorough"],
+         entries=_c19_e(["ctor", "lin", "mul", "dot", "div", "normalized", "normalize", "normalize_cond"], ["f2"]),
+         units=[], unwind=20, solvers=["cvc5", "minisat"], timeout=300, mem_gb=4,
+         bounds="VectorT<float,2>: remaining obligations of vec-fp-formula (clang keeps copies of the 8-byte vector in an i64 temporary accessed through float*; measured: no verdict "
+                "in 100-300 s per query - listed as not covered when they time out)"),
     # ---------------------------------------------------------------- GeometryKernel on the base family, symbolic positions
     dict(name="geom-int", harness="C19_geom.cpp", entries=["harness_geom_i_edges", "harness_geom_i_bary"], units=_C19_GEOM_UNITS, unwind=60, object_bits=13,
          solvers=["cadical"], witness_any=True, timeout=300, mem_gb=4,
@@ -88,9 +94,9 @@ PROPS["C19"] = dict(
          bounds="GeometryKernel<Vec3d,TopologyKernel>: vertex()/set_vertex() round trip bit-exact for symbolic vertex probes, arbitrary bit patterns"),
     dict(name="geom-double-vector", harness="C19_geom.cpp", entries=["harness_geom_d_vector"], units=_C19_GEOM_UNITS, unwind=60, object_bits=13,
          solvers=["cadical"], witness_any=True, timeout=300, mem_gb=4,
-         shards={"quick": _c19_dvec_shards(B_TET, [0, 1]), "thorough": _c19_dvec_shards(B_TET, range(12))},
-         bounds="GeometryKernel<Vec3d>: vector(halfedge) / vector(edge) == position(to) - position(from) bit for bit, one component of one halfedge per query (quick: halfedges 0,1 of "
-                "the tetrahedron; thorough: all 12), positions arbitrary double bit patterns"),
+         shards={"quick": [{0: B_TET, 1: 0, 2: 0}, {0: B_TET, 1: 1, 2: 1}, {0: B_TET, 1: 0, 2: 5}], "thorough": _c19_dvec_shards(B_TET, range(12))},
+         bounds="GeometryKernel<Vec3d>: vector(halfedge) / vector(edge) == position(to) - position(from) bit for bit, one component of one halfedge per query (quick: three samples on "
+                "the tetrahedron; thorough: all components of all 12 halfedges and 6 edges), positions arbitrary double bit patterns"),
   ],
   assumptions=[
     "sqrt/sqrtf are an uninterpreted function shared by implementation and oracle: norm()/length()/normalize*() are decided modulo sqrt",
@@ -98,7 +104,7 @@ PROPS["C19"] = dict(
     "(clang emits llvm.fmuladd, which baseline x86-64 executes unfused); 'within rounding' claims that need real error analysis are outside",
     "signed integer overflow is evaluated with two's-complement wrap on both sides (C++ leaves it undefined; where the optimiser exploits that - mean_abs - the claim is restricted to non-overflowing inputs)",
     "not covered (no verdict within the per-query cap, stated, not claimed): GeometryKernel<Vec3d> barycenter/length/normal (SAT back ends do not finish the IEEE multiplier/divider "
-    "equivalence; CBMC's SMT2 back end aborts with 'map::at' on mesh-level code), normal(halfface) == -normal(opposite) for either scalar type, NormalAttrib, VectorT<float,2>, "
+    "equivalence; CBMC's SMT2 back end aborts with 'map::at' on mesh-level code), normal(halfface) == -normal(opposite) for either scalar type, NormalAttrib, the vector-copying operations of VectorT<float,2>, "
     "stream operators << >> (iostream), apply()",
   ],
 )
